@@ -80,7 +80,8 @@ def mutated_names(nodes):
         if isinstance(n, (ast.FunctionDef, ast.Lambda, ast.ClassDef)):
             return
         if isinstance(n, ast.Call) and isinstance(n.func, ast.Attribute) and n.func.attr in (
-                "append", "extend", "insert", "pop", "remove", "update", "add", "clear", "sort", "reverse"):
+                "append", "extend", "insert", "pop", "remove", "update", "add", "clear", "sort", "reverse",
+                "read", "seek", "write", "readline", "readinto"):
             b = base(n.func.value)
             if b and b not in names:
                 names.append(b)
@@ -491,7 +492,16 @@ class EvalMixin:
             if -k <= n:
                 return o.items[k]
             return self.pre_elem(o, k + n)           # negative index into the prefix
-        raise Undecided("non-negative index into symbolic-prefix list")
+        # concrete k >= 0 into  base[:ln] + items
+        ln = o.pre[1]
+        if self.p.branch(I(k) < ln):
+            return o.pre[2](I(k))
+        if n:
+            off = z3.simplify(I(k) - ln)                 # position among the explicit items: finitely many values
+            j = self.p.concretize(off, limit=n + 2) if not z3.is_int_value(off) else off.as_long()
+            if 0 <= j < n:
+                return o.items[j]
+        raise PyExc(IndexError)
 
     def pre_elem(self, o, j):
         """element j (negative: from the end) of the symbolic prefix; IndexError if too short"""
@@ -527,6 +537,15 @@ class EvalMixin:
             if isinstance(o, HByteArray):
                 return self.p.alloc(HByteArray(self.slice_of(o.val, lo, hi, st)))
             if isinstance(o, HList):
+                if (o.pre is not None and not o.items and st is None and (lo is None or (isinstance(lo, int) and lo == 0))
+                        and isinstance(hi, (SInt, SBV))):
+                    # prefix xs[:hi] with symbolic hi of a purely symbolic list: same elements, length min(len, max(hi, 0))
+                    ht = self.it(hi)
+                    if self.p.branch(ht < 0):
+                        raise Undecided("negative symbolic bound in a slice of a symbolic-prefix list")
+                    if self.p.branch(o.pre[1] <= ht):
+                        return self.p.alloc(HList([], o.pre))
+                    return self.p.alloc(HList([], (o.pre[0], z3.simplify(ht), o.pre[2])))
                 lo = lo if lo is None or isinstance(lo, int) else self.p.concretize(self.it(lo))
                 hi = hi if hi is None or isinstance(hi, int) else self.p.concretize(self.it(hi))
                 if o.pre is None:
@@ -1139,6 +1158,26 @@ class EvalMixin:
             fr.env.setdefault("spec", self.reg.spec_module)
         hints = spec.get("types", {})
         ghost_init = spec.get("ghost_init", {})
+
+        def stream_is(mach, st, v):
+            """contract-language predicate for invariants: the unread rest of BytesIO `st` is exactly the bytes `v`"""
+            o = mach.p.deref(st) if isinstance(st, Ref) else None
+            if not isinstance(o, HStream):
+                raise Undecided("stream_is on a non-stream")
+            return mach.compare_vals("Eq", mk_bytes(list(o.rem)), v)
+        stream_is._pyvc_native = True
+        fr.env.setdefault("stream_is", stream_is)
+        # ghosts of the contract under verification may be named by an invariant (parsing loops relate the stream to the
+        # ghost values it was built from): made visible under names the function itself does not use
+        genv = getattr(self, "ghost_env", None) or {}
+        for clause in inv:
+            try:
+                cn = self.reg.parse(clause) if self.reg is not None else ast.parse(clause, mode="eval").body
+            except SyntaxError:
+                continue
+            for n2 in ast.walk(cn):
+                if isinstance(n2, ast.Name) and n2.id in genv and n2.id not in fr.env and n2.id not in (fr.glob or {}):
+                    fr.env[n2.id] = genv[n2.id]
         for g, e in ghost_init.items():
             fr.env[g] = self.eval_spec(e, fr)
         self.prove_all(inv, fr, tag + "/establish")
@@ -1159,8 +1198,24 @@ class EvalMixin:
                         self.p.assume(t < (1 << (self.bv - 1)))
                     continue
                 fr.env[x] = self.havoc_like(x, fr.env.get(x), hints.get(x))
+        inv_nodes = []
+        for clause in inv:
+            try:
+                inv_nodes.append(self.reg.parse(clause) if self.reg is not None else ast.parse(clause, mode="eval").body)
+            except SyntaxError:
+                inv_nodes.append(None)
+        # objects mutated in place whose new state an invariant clause DEFINES (`name == expr` for a list,
+        # `stream_is(name, expr)` for a BytesIO): they are (re)bound from that clause below instead of being havocked blindly
+        defined_muts = set()
+        for nd in inv_nodes:
+            if (isinstance(nd, ast.Compare) and len(nd.ops) == 1 and isinstance(nd.ops[0], ast.Eq) and isinstance(nd.left, ast.Name)
+                    and nd.left.id in muts and not any(isinstance(n2, ast.Name) and n2.id == nd.left.id for n2 in ast.walk(nd.comparators[0]))):
+                defined_muts.add(nd.left.id)
+            if (isinstance(nd, ast.Call) and isinstance(nd.func, ast.Name) and nd.func.id == "stream_is" and len(nd.args) == 2
+                    and isinstance(nd.args[0], ast.Name)):
+                defined_muts.add(nd.args[0].id)
         for x in muts:
-            if x in mods:
+            if x in mods or x in defined_muts:
                 continue
             cur = fr.env[x]
             o = self.p.deref(cur) if isinstance(cur, Ref) else None
@@ -1179,8 +1234,21 @@ class EvalMixin:
                 node = self.reg.parse(clause) if self.reg is not None else ast.parse(clause, mode="eval").body
             except SyntaxError:
                 node = None
+            if (isinstance(node, ast.Call) and isinstance(node.func, ast.Name) and node.func.id == "stream_is" and len(node.args) == 2
+                    and isinstance(node.args[0], ast.Name) and node.args[0].id in defined_muts):
+                st = fr.env.get(node.args[0].id)
+                o = self.p.deref(st) if isinstance(st, Ref) else None
+                if not isinstance(o, HStream):
+                    raise Undecided("stream_is on a non-stream")
+                try:
+                    val = self.eval(node.args[1], fr)
+                except PyExc:
+                    raise PathEnd()
+                o.rem = list(as_chunks(val))
+                o.consumed = []          # what was read before the cut is not tracked (seek/tell after the loop: undecided)
+                continue
             if (isinstance(node, ast.Compare) and len(node.ops) == 1 and isinstance(node.ops[0], ast.Eq)
-                    and isinstance(node.left, ast.Name) and node.left.id in mods and node.left.id != index
+                    and isinstance(node.left, ast.Name) and (node.left.id in mods or node.left.id in defined_muts) and node.left.id != index
                     and not any(isinstance(n2, ast.Name) and n2.id == node.left.id for n2 in ast.walk(node.comparators[0]))):
                 try:
                     fr.env[node.left.id] = self.eval(node.comparators[0], fr)
